@@ -61,13 +61,15 @@ TgStyles   == {"relative", "absolute"}
 PkgIds     == {"odFirst", "odLast"}
 ContOrder  == <<"plain", "hyperlink", "smartTag", "ins", "sdt", "fldSimple", "customXml", "hl-ins",
                 "sdt-hl", "st-st", "multiT",
-                "t+drawing", "fld+t", "t+br+t", "tab+t", "t+fnref", "t+t",
-                "hyperlink>t+br+t", "sdt>fld+t", "ins>t+drawing", "smartTag>t+t">>
-\* MIXED RUNS (dimension "mix"): one w:r that holds text together with other run content
-MixConts   == {"t+drawing", "fld+t", "t+br+t", "tab+t", "t+fnref", "t+t",
-               "hyperlink>t+br+t", "sdt>fld+t", "ins>t+drawing", "smartTag>t+t"}
+                "t+drawing", "fld+t", "t+br+t", "tab+t", "t+fnref", "t+t">>
+\* MIXED RUNS: one w:r that holds text together with other run content. Dimension "mix": such a run in a
+\* plain paragraph (one value per pattern), in a table cell (tblmix), in a block-level content control
+\* (sdtblkmix). Dimension "mixin" (one pattern at most): every run that sits inside an inline container
+\* (hyperlink, smartTag, ins, sdt, fldSimple, customXml and the nested ones) is a mixed run of that pattern.
+MixConts   == {"t+drawing", "fld+t", "t+br+t", "tab+t", "t+fnref", "t+t"}
+MixBlks    == {"tblmix", "sdtblkmix"}
 PlainConts == SetOf(ContOrder) \ MixConts
-BlkOrder   == <<"tbl", "tblhl", "sdtblk", "tblmix">>
+BlkOrder   == <<"tbl", "tblhl", "sdtblk", "tblmix", "sdtblkmix">>
 \* STYLES PART (dimensions "sty" spelling, "sdef" ids defined, "sref" ids referenced by body paragraphs)
 StySpellings == {"w", "ns0", "default", "squote", "reorder"}
 SdefIds    == {"Heading1", "Title", "Quote"}          \* ids the library also knows; toggled in the part
@@ -91,13 +93,14 @@ AllDevs ==
   \cup {Dev("ns", x) : x \in NsPrefixes \ {"w"}}
   \cup {Dev("pkgns", "prefixed"), Dev("tgstyle", "absolute"), Dev("pkgids", "odLast")}
   \cup {Dev("cont", x) : x \in PlainConts}
-  \cup {Dev("blk", x) : x \in SetOf(BlkOrder) \ {"tblmix"}}
+  \cup {Dev("blk", x) : x \in SetOf(BlkOrder) \ MixBlks}
   \cup {Dev("xrel", k) : k \in XrelKinds}
-  \cup {Dev("mix", x) : x \in MixConts \cup {"tblmix"}}
+  \cup {Dev("mix", x) : x \in MixConts \cup MixBlks}
+  \cup {Dev("mixin", x) : x \in MixConts}
   \cup {Dev("sty", x) : x \in StySpellings \ {"w"}}
   \cup {Dev("sdef", x) : x \in SdefIds}
   \cup {Dev("sref", x) : x \in SetOf(SrefOrder)}
-ExclusiveDims == {"base", "scheme", "ns", "pkgns", "tgstyle", "pkgids", "sty"}
+ExclusiveDims == {"base", "scheme", "ns", "pkgns", "tgstyle", "pkgids", "sty", "mixin"}
 \* a deviation set is a shape iff exclusive dimensions carry at most one value
 ShapeOK(D) == \A x, y \in D : (x.dim = y.dim /\ x.dim \in ExclusiveDims) => x = y
 
@@ -108,10 +111,11 @@ IsMin(D) == One(D, "base", "rich") = "min"
 MediaOf(D)  == Toggle(IF IsMin(D) THEN {} ELSE BaseMedia, Vals(D, "media"))
 ExtOf(D)    == Toggle(IF IsMin(D) THEN {} ELSE BaseExt, Vals(D, "ext"))
 ContsOf(D)  == Toggle(IF IsMin(D) THEN {"plain"} ELSE BaseConts, Vals(D, "cont")) \cup (Vals(D, "mix") \cap MixConts)
-BlksOf(D)   == Vals(D, "blk") \cup (Vals(D, "mix") \cap {"tblmix"})
+BlksOf(D)   == Vals(D, "blk") \cup (Vals(D, "mix") \cap MixBlks)
+MixinOf(D)  == One(D, "mixin", "t")
 \* a run with a footnote reference is well-formed only in a package that has the footnotes part
 ExtrasOf(D) == Toggle(IF IsMin(D) THEN {} ELSE BaseExtras, Vals(D, "extra")) \cup Vals(D, "xrel")
-               \cup (IF "t+fnref" \in ContsOf(D) THEN {"footnotes"} ELSE {})
+               \cup (IF "t+fnref" \in ContsOf(D) \/ MixinOf(D) = "t+fnref" THEN {"footnotes"} ELSE {})
 SchemeOf(D) == One(D, "scheme", "dense")
 DefsOf(D)   == AlwaysDefs \cup Toggle(IF IsMin(D) THEN {} ELSE BaseSdef, Vals(D, "sdef"))
 SrefsOf(D)  == Toggle(IF IsMin(D) THEN {} ELSE BaseSref, Vals(D, "sref"))
@@ -267,26 +271,17 @@ PartsOf(D) ==
 Tok(b, j, m) == "qT" \o ToString(b) \o "x" \o ToString(j) \o "y" \o ToString(m) \o "q"
 
 \* the inline container(s) a run of container class c is wrapped in, and what the run itself holds
-WrapOf(c) ==
-  CASE c = "hyperlink>t+br+t" -> "hyperlink"
-    [] c = "sdt>fld+t"        -> "sdt"
-    [] c = "ins>t+drawing"    -> "ins"
-    [] c = "smartTag>t+t"     -> "smartTag"
-    [] c \in MixConts \cup {"multiT"} -> "plain"
-    [] OTHER                  -> c
-MixOf(c) ==
-  CASE c = "hyperlink>t+br+t" -> "t+br+t"
-    [] c = "sdt>fld+t"        -> "fld+t"
-    [] c = "ins>t+drawing"    -> "t+drawing"
-    [] c = "smartTag>t+t"     -> "t+t"
-    [] c \in MixConts \cup {"multiT"} -> c
-    [] OTHER                  -> "t"
+WrapOf(c) == IF c \in MixConts \cup {"multiT"} THEN "plain" ELSE c
+\* what a run of container class c holds; mixin = the pattern of runs inside inline containers
+MixOf(c, mixin) == IF c \in MixConts \cup {"multiT"} THEN c ELSE IF c = "plain" THEN "t" ELSE mixin
+\* the label of such a run in witnesses
+ContLabel(c, mixin) == IF WrapOf(c) # "plain" /\ mixin # "t" THEN c \o ">" \o mixin ELSE c
 
 \* run content in document order: [k |-> element, v |-> its text / attribute]; pic = relationship id of
 \* the picture a drawing in a mixed run shows ("" = the package holds no picture: a drawing without blip)
 It(k, v) == [k |-> k, v |-> v]
-ItemsFor(b, j, c, pic) ==
-  LET x == MixOf(c) t1 == It("t", Tok(b, j, 1)) t2 == It("t", Tok(b, j, 2)) IN
+ItemsFor(b, j, c, mixin, pic) ==
+  LET x == MixOf(c, mixin) t1 == It("t", Tok(b, j, 1)) t2 == It("t", Tok(b, j, 2)) IN
   CASE x = "t"         -> <<t1>>
     [] x = "multiT"    -> <<t1, It("tab", ""), t2>>
     [] x = "t+drawing" -> <<t1, It("drawing", pic)>>
@@ -299,10 +294,11 @@ ToksOfItems(its) == LET ts == SeqFilter(its, LAMBDA i : i.k = "t") IN [n \in 1..
 \* a run is mixed iff it holds anything but exactly one w:t
 IsMixedRun(r) == Len(r.its) # 1
 
-BlkKind(x) == IF x = "sdtblk" THEN "sdtblk" ELSE "tbl"
-BlkConts(x) == CASE x = "tblhl"  -> <<"plain", "hyperlink">>
-                 [] x = "tblmix" -> <<"plain", "t+drawing", "t+br+t", "fld+t">>
-                 [] OTHER        -> <<"plain">>
+BlkKind(x) == IF x \in {"sdtblk", "sdtblkmix"} THEN "sdtblk" ELSE "tbl"
+BlkConts(x) == CASE x = "tblhl"     -> <<"plain", "hyperlink">>
+                 [] x = "tblmix"    -> <<"plain", "t+drawing", "t+br+t", "fld+t">>
+                 [] x = "sdtblkmix" -> <<"plain", "t+t", "t+drawing">>
+                 [] OTHER           -> <<"plain">>
 
 IdOfKind(rels, k) == IF \E r \in rels : r.src = DocRels /\ r.k = k
                      THEN (CHOOSE r \in rels : r.src = DocRels /\ r.k = k).id ELSE ""
@@ -322,8 +318,9 @@ BodyOf(D) ==
       text == [b \in 1..Len(tb) |->
                  [blk |-> tb[b].blk, rel |-> "", link |-> FALSE, sty |-> tb[b].sty,
                   runs |-> [j \in 1..Len(tb[b].cs) |->
-                              LET its == ItemsFor(b, j, tb[b].cs[j], pic)
-                              IN [c |-> tb[b].cs[j], w |-> WrapOf(tb[b].cs[j]), its |-> its, ts |-> ToksOfItems(its)]]]]
+                              LET its == ItemsFor(b, j, tb[b].cs[j], MixinOf(D), pic)
+                              IN [c |-> ContLabel(tb[b].cs[j], MixinOf(D)), w |-> WrapOf(tb[b].cs[j]),
+                                  its |-> its, ts |-> ToksOfItems(its)]]]]
       pics == [i \in 1..Len(med) |->
                  [blk |-> "pic", link |-> FALSE, runs |-> <<>>, sty |-> "",
                   rel |-> (CHOOSE r \in rels : r.rt = "word/media/" \o med[i]).id]]
